@@ -52,6 +52,25 @@ def one(ctx, rng, xr, utils):
     f, fm = gen.freq_grid(rng, nf=nf)
     full = bool(rng.random() < 0.7)
     th, dd, dmeta = gen.dir_grid(rng, nd=int(rng.choice([3, 4, 5, 8, 12, 16, 24])), full=full, exact=True)
+    conv = "std"
+    if full and rng.random() < 0.35:
+        # other label conventions of the same full circle: north written as 360, -180..180, one turn up
+        conv = str(rng.choice(["north360", "pm180", "turn_up"]))
+        if conv == "north360":
+            th = np.sort(np.where(th == 0.0, 360.0, th))
+            conv = conv if th[-1] == 360.0 else "std"
+        elif conv == "pm180":
+            th = np.sort((th + 180.0) % 360.0 - 180.0)
+        else:
+            th = th + 360.0
+    elif not full and rng.random() < 0.4:
+        # uniformly spaced sector that falls 1..3 bins short of the full circle
+        s_ = float(rng.choice([5.0, 7.5, 10.0, 11.25, 15.0, 22.5, 30.0]))
+        short = int(rng.integers(1, 4))
+        n_ = int(round(360.0 / s_)) - short
+        th = float(rng.integers(0, short + 1)) * s_ + s_ * np.arange(n_)
+        dd = s_
+        conv = "short%d" % short
     nd = len(th)
     lnames, lsizes = gen.lead_dims(rng, nlead=int(rng.choice([0, 0, 1, 2])), maxsize=3)
     cls = str(rng.choice(["noise", "multimodal", "plateau", "single_bin", "constant", "zeros"]))
@@ -68,7 +87,7 @@ def one(ctx, rng, xr, utils):
     fw = int(rng.choice([w for w in range(1, max(nf, 1) + 1, 2)]))
     dw = int(rng.choice([w for w in range(1, nd + 1, 2)]))
     even = rng.random() < 0.08
-    key = "%s|%s|nf=%d|nd=%d|full=%s|fw=%d|dw=%d|lead=%d|%s" % (stored, dt, nf, nd, full, fw, dw, len(lnames), cls)
+    key = "%s|%s|nf=%d|nd=%d|full=%s:%s|fw=%d|dw=%d|lead=%d|%s" % (stored, dt, nf, nd, full, conv, fw, dw, len(lnames), cls)
     via = str(rng.choice(["accessor", "function", "dataset"]))
 
     def call(fw_, dw_):
